@@ -102,7 +102,7 @@ def _work(job):
     for s in strings:
         n += 1
         r = check_output(s, tab)
-        if r is not None and len(bad) < 3:
+        if r is not None and sum(1 for b in bad if b['clause'] == r[0]) < 3:
             bad.append({'clause': r[0], 'detail': r[1], 'input': {'selfies': s if len(s) < 3000 else s[:3000], 'table': tname,
                         'full_len': len(s)}, 'observed': r[2]})
         if 'Ring' in s:
